@@ -8,6 +8,7 @@ import (
 	"io"
 	"log"
 	"strings"
+	"sync"
 	"testing"
 	"time"
 
@@ -22,7 +23,7 @@ import (
 
 func TestMain(m *testing.M) {
 	harness.Property("C16",
-		"scripted master (MOTD, SID, ;PQ: <challenge>, prompt, then FQ after the slave's FF) against a real slave Session; challenge = digits (typical) or printable ASCII without edge spaces, 1..32 chars; password = any bytes without CR (0..24, the empty password included), in a third of the cases extended by a searched suffix so that the 30 bit value has fewer than 8 decimal digits (zero padding corner); 0..4 auxiliary addresses each with password / empty password / callback error; main callback ok / error / not registered. Oracle = independent formulation of the algorithm (internal/ref/secure, pinned by the published vector). Non-trivial = at least one auxiliary address; distinct by hash of the case.",
+		"scripted master (MOTD, SID, ;PQ: <challenge>, prompt, then FQ after the slave's FF) against a real slave Session; challenge = digits (typical) or printable ASCII without edge spaces, 1..32 chars; password = any bytes without CR (0..24, the empty password included), in a third of the cases extended by a searched suffix so that the 30 bit value has fewer than 8 decimal digits (zero padding corner); 0..4 auxiliary addresses each with password / empty password / callback error; main callback ok / error / not registered; in an eighth of the ok cases 2..8 sessions of the process (challenge and passwords made distinct per session) run 1..12 exchanges each at the same time and every exchange is judged on its own, binary built with the race detector. Oracle = independent formulation of the algorithm (internal/ref/secure, pinned by the published vector). Non-trivial = at least one auxiliary address; distinct by hash of the case.",
 		"the password-on-the-wire clause is only checked for passwords of >= 6 bytes that are not a substring of the legitimately expected output",
 	)
 	harness.Main(m)
@@ -54,6 +55,11 @@ type Case struct {
 	// PwLen / ChLen > len: the password / challenge is repeated cyclically to that many bytes (long pass-phrases)
 	PwLen int `json:"pw_len,omitempty"`
 	ChLen int `json:"ch_len,omitempty"`
+	// Parallel > 1: that many sessions of one process (a gateway that logs in on several links) answer their
+	// challenges at the same time: session i gets the challenge with i appended and the password with i appended,
+	// each runs Rounds exchanges, every one is judged on its own; the binary is built with the race detector.
+	Parallel int `json:"parallel,omitempty"`
+	Rounds   int `json:"rounds,omitempty"`
 }
 
 func cyc(unit []byte, n int) []byte {
@@ -82,6 +88,44 @@ func lookup(c Case, addr string) (pw []byte, fails bool) {
 var discard = log.New(io.Discard, "", 0)
 
 func run(c Case) (sig, msg string) {
+	if c.Parallel <= 1 {
+		return runOne(c)
+	}
+	type res struct{ sig, msg string }
+	out := make([]res, c.Parallel)
+	var wg sync.WaitGroup
+	start := make(chan struct{})
+	for i := 0; i < c.Parallel; i++ {
+		ci := c
+		ci.Parallel, ci.Retry = 0, false
+		ci.Challenge = fmt.Sprintf("%s%d", c.Challenge, i)
+		ci.Password = append(append([]byte{}, c.Password...), byte('0'+i))
+		ci.Aux = append([]Aux{}, c.Aux...)
+		for k := range ci.Aux {
+			if len(ci.Aux[k].Password) > 0 {
+				ci.Aux[k].Password = append(append([]byte{}, ci.Aux[k].Password...), byte('a'+i))
+			}
+		}
+		wg.Add(1)
+		go func(i int, ci Case) {
+			defer wg.Done()
+			<-start
+			for r := 0; r < max(c.Rounds, 1) && out[i].sig == ""; r++ {
+				out[i].sig, out[i].msg = runOne(ci)
+			}
+		}(i, ci)
+	}
+	close(start)
+	wg.Wait()
+	for i, r := range out {
+		if r.sig != "" {
+			return "concurrent:" + r.sig, fmt.Sprintf("session %d of %d that log in at the same time: %s", i+1, c.Parallel, r.msg)
+		}
+	}
+	return "", ""
+}
+
+func runOne(c Case) (sig, msg string) {
 	c.Password = cyc(c.Password, c.PwLen)
 	if ch := cyc([]byte(c.Challenge), c.ChLen); len(ch) > 0 {
 		if ch[len(ch)-1] == ' ' {
@@ -306,6 +350,10 @@ func genCase(t *rapid.T) Case {
 	for i := rapid.IntRange(0, 2).Draw(t, "nmotd"); i > 0; i-- {
 		c.MOTD = append(c.MOTD, rapid.StringMatching(`[A-Za-z0-9*][ -=?-~]{0,40}[A-Za-z0-9.]`).Draw(t, "motd"))
 	}
+	if c.Callback == "ok" && !c.Retry && rapid.IntRange(0, 7).Draw(t, "parallel") == 0 {
+		c.Parallel = rapid.IntRange(2, 8).Draw(t, "sessions")
+		c.Rounds = rapid.IntRange(1, 12).Draw(t, "rounds")
+	}
 	return c
 }
 
@@ -317,6 +365,9 @@ func TestProp(t *testing.T) {
 		harness.Label("callback:" + c.Callback)
 		if c.Retry {
 			harness.Label("history:retry-after-aborted-password-prompt")
+		}
+		if c.Parallel > 1 {
+			harness.Label("concurrent-sessions-in-one-process")
 		}
 		if c.PwLen > 56 || c.ChLen > 56 {
 			harness.Label("long-credentials(challenge+password > 64 bytes)")
